@@ -213,6 +213,16 @@ def check_pred(p, raw, rows, stats):
     for r, v in zip(rows, truth):
         if eval_p(stored, r) != v:
             raise Violation("selection-not-equivalent", f"Selection stores {fmt_p(stored)} which differs from {ctx} on row {_row(r)}")
+    if not has_container(p):
+        # rows are not restricted to integers: with a not-a-number value "not (a < 0)" and "a >= 0" differ
+        for r in NAN_ROWS:
+            if bool(eval_p(stored, r)) != bool(eval_p(p, r)):
+                raise Violation("selection-not-equivalent", f"Selection stores {fmt_p(stored)} which differs from {ctx} on row {_row(r)}", nan=True)
+        if fl is not False:
+            for r in NAN_ROWS:
+                if all(eval_p(q, r) for q in conj) != bool(eval_p(p, r)):
+                    raise Violation("flatten-not-equivalent", f"AND of conjuncts {[fmt_p(q) for q in conj]} differs from {ctx} on row {_row(r)}", nan=True)
+        stats.c["selection:checked-on-nan-rows"] += 1
     if set(sel.columns_required) != set(sel.predicate.columns_required):
         raise Violation("selection-columns", f"Selection.columns_required {set(sel.columns_required)} vs predicate {ctx}")
     # (3b) using the predicate in operations must not change what it declares (objects are shared between relations)
